@@ -31,10 +31,11 @@ ASSUMPTIONS = [
 def grid(ctx):
     rng = ctx.rng
     pairs = []
-    for rq in ctx.scale([1, 30, 64, 100, 257, 1000, 4096, 65536], [1, 2, 10, 30, 41, 64, 100, 127, 128, 129, 257, 1000, 4096, 16384, 65536, 300000]):
-        for rs in {max(1, rq // 2), rq * 2 + 1, rq, rq + 1, max(1, rq - 1), 10 * 1024 * 1024, 80}:
+    for rq in ctx.scale([1, 30, 100, 257, 4096, 65536], [1, 2, 10, 30, 41, 64, 100, 127, 128, 129, 257, 1000, 4096, 16384, 65536, 300000]):
+        for rs in ctx.scale({max(1, rq // 2), rq * 2 + 1, rq, 10 * 1024 * 1024, 80},
+                            {max(1, rq // 2), rq * 2 + 1, rq, rq + 1, max(1, rq - 1), 10 * 1024 * 1024, 80}):
             pairs.append((rq, rs))
-    for _ in range(ctx.scale(6, 150)):
+    for _ in range(ctx.scale(4, 100)):
         rq = rng.choice([rng.randint(1, 300), rng.randint(60, 5000), rng.randint(60, 200000)])
         rs = rng.choice([rng.randint(1, 300), rng.randint(60, 5000), rng.randint(60, 200000), rq + rng.randint(-3, 3)])
         pairs.append((rq, max(1, rs)))
@@ -82,7 +83,7 @@ def gen_cases(ctx, eps_ws=L.EPS_WS, eps_http=L.EPS_HTTP, pairs=None):
 
     def nid():
         next_id[0] += 1
-        return next_id[0]
+        return 1000000 + next_id[0]      # fixed width: the parameter length identifies the message size
 
     for rq, rs in (pairs or grid(ctx)):
         sizes = sizes_for(ctx, rq, rs)
@@ -111,7 +112,10 @@ def gen_cases(ctx, eps_ws=L.EPS_WS, eps_http=L.EPS_HTTP, pairs=None):
                 if tcp and sz > 400_000:
                     continue
                 m, kind, plen = L.sized_message(nid(), sz)
-                hows = ["one", "two", "many"] if tcp and not ctx.thorough else ["one", "two", "first1", "many", "last1"]
+                if ctx.thorough or ctx.search_mode:
+                    hows = ["one", "two", "first1", "many", "last1"]
+                else:
+                    hows = ["one", "many"] if tcp else ["one", "two", "many", "last1"]
                 for how in hows:
                     if sz > 300_000 and how != "one":
                         continue
@@ -125,11 +129,20 @@ def gen_cases(ctx, eps_ws=L.EPS_WS, eps_http=L.EPS_HTTP, pairs=None):
     return cases
 
 
+def model_ep(c):
+    # the low-level entry points over TCP: WS upgrades go to ws::connect, plain requests to http::call_with_service_builder
+    return "httpbuilder" if (c["t"] == "http" and c["ep"] == "wsconnect") else c["ep"]
+
+
+def label(c):
+    return "%s/%s" % ("httpbuilder-tcp" if (c["t"] == "http" and c["ep"] == "wsconnect") else c["ep"], c["t"])
+
+
 def model_line(c):
     if c["t"] == "ws":
         return "ws %s %d %d %s" % (c["ep"], c["rq"], c["rs"], ",".join(str(m["size"]) for m in c["_meta"]))
     fr = ",".join(str(len(L.segs_bytes(f))) for f in c["frames"])
-    return "http %s %d %d %s %s" % (c["ep"], c["rq"], c["rs"], "-" if c["cl"] is None else c["cl"], fr)
+    return "http %s %d %d %s %s" % (model_ep(c), c["rq"], c["rs"], "-" if c["cl"] is None else c["cl"], fr)
 
 
 def canon(c, r):
@@ -171,7 +184,7 @@ def decisions(c, r):
 def oracle(ctx, c, r, prop="C07"):
     """The property restated on the implementation's outputs alone.  Returns list of (key, detail, reduced_case)."""
     fails = []
-    where = "%s/%s" % (c["ep"], c["t"])
+    where = label(c)
     rq = c["rq"]
     log = list(r.get("log", []))
     if c["t"] == "ws":
@@ -247,28 +260,30 @@ def oracle(ctx, c, r, prop="C07"):
     return fails
 
 
-def run_and_judge(ctx, cases, prop="C07", use_model=True):
+def run_and_judge(ctx, cases, prop="C07", use_model=True, only_independence=False):
     res = L.run_srv([public(c) for c in cases])
     model = vlib.run_lines([vlib.model_bin("reqlimit")], [model_line(c) for c in cases]) if use_model else [None] * len(cases)
     by_group = {}
     pending = []
     for c, r, m in zip(cases, res, model):
         line = canon(c, r)
-        ctx.count("%s/%s" % (c["ep"], c["t"]))
+        ctx.count(label(c))
         ctx.count("rq<rs" if c["rq"] < c["rs"] else ("rq>rs" if c["rq"] > c["rs"] else "rq=rs"))
         ctx.record(public(c), line, nontrivial=("T:" in line or line[:3] in ("413", "500")))
-        fs = oracle(ctx, c, r, prop)
+        fs = [] if only_independence else oracle(ctx, c, r, prop)
         for key, detail, reduced in fs:
             pending.append((key, detail, reduced, c))
-        if use_model and m is not None and line != m and not fs:
-            ctx.fail("diff", "srvlimits-model-differs:%s/%s" % (c["ep"], c["t"]), public(c), {"impl": line[:400], "model": m[:400]})
+        if only_independence:
+            pass
+        elif use_model and m is not None and line != m and not fs:
+            ctx.fail("diff", "srvlimits-model-differs:" + label(c), public(c), {"impl": line[:400], "model": m[:400]})
         elif use_model and m is not None and line != m:
             ctx.count("diff-next-to-oracle-failure")
         # independence of max_response: same scenario, different rs
         gkey = (c["ep"], c["t"], c["rq"], json.dumps(c.get("msgs") or [c.get("frames"), c.get("cl")]))
         d = decisions(c, r)
         if gkey in by_group and by_group[gkey][0] != d:
-            pending.append(("outcome-depends-on-max-response:%s/%s" % (c["ep"], c["t"]),
+            pending.append((("request-acceptance-depends-on-max-response:" if only_independence else "outcome-depends-on-max-response:") + label(c),
                             "rs=%d -> %s ; rs=%d -> %s" % (by_group[gkey][1], by_group[gkey][0][:80], c["rs"], d[:80]), None, c))
         by_group.setdefault(gkey, (d, c["rs"]))
     # confirm reduced cases (one message + a later small one) and report the smallest failing form
